@@ -293,7 +293,7 @@ impl Position {
 //@       && (!o.dom().contains("x2"@) ==> written(m, "x2"@, val(b.x2) + or0(self.dx)))
 //@       && (!o.dom().contains("y2"@) ==> written(m, "y2"@, val(b.y2) + or0(self.dy)))
 //@       && (o.dom().contains("x1"@) && self.dx is Some && strp_spec(o["x1"@]) is Some ==> written(m, "x1"@, strp_spec(o["x1"@])->Some_0 + val(self.dx->Some_0)))
-//@       && (o.dom().contains("y2"@) && self.dy is Some && strp_spec(o["y2"@]) is Some ==> written(m, "y2"@, strp_spec(o["y2"@])->Some_0 + val(self.dy->Some_0))) })     @@C11.native.values.line
+//@       && (o.dom().contains("y2"@) && self.dy is Some && strp_spec(o["y2"@]) is Some ==> written(m, "y2"@, strp_spec(o["y2"@])->Some_0 + val(self.dy->Some_0))) })     @@C11.native.values.line @@C09.native.values.line
 //@end
 }
 
